@@ -924,46 +924,25 @@ func (f *Field) SetBit(rowID, colID uint64, t *time.Time) (changed bool, err err
 
 // ClearBit clears a bit within the field.
 func (f *Field) ClearBit(rowID, colID uint64) (changed bool, err error) {
-	viewName := viewStandard
-
-	// Retrieve view. Exit if it doesn't exist.
-	view, present := f.viewMap[viewName]
-	if !present {
-		return changed, errors.Wrap(err, "clearing missing view")
-
-	}
-
-	// Clear non-time bit.
-	if v, err := view.clearBit(rowID, colID); err != nil {
-		return changed, errors.Wrap(err, "clearing on view")
-	} else if v {
-		changed = v
-	}
-	if len(f.viewMap) == 1 { // assuming no time views
-		return changed, nil
-	}
-	lastViewNameSize := 0
-	level := 0
-	skipAbove := maxInt
-	for _, view := range f.allTimeViewsSortedByQuantum() {
-		if lastViewNameSize < len(view.name) {
-			level++
-		} else if lastViewNameSize > len(view.name) {
-			level--
+	// A bit set with a timestamp lives in the standard view (unless the field
+	// has none) and in one time view per unit of the quantum, for every
+	// timestamp it was set with. Clear it in all of them: skipping the finer
+	// views below a coarser view that did not hold the bit depended on a view
+	// ordering that does not group them, and left the bit in some time views;
+	// a field without a standard view was not cleared at all.
+	timePrefix := viewStandard + "_"
+	for _, view := range f.views() {
+		if view.name != viewStandard && !strings.HasPrefix(view.name, timePrefix) {
+			continue // not a row view of this field (e.g. bsi group views)
 		}
-		if level < skipAbove {
-			if changed, err = view.clearBit(rowID, colID); err != nil {
-				return changed, errors.Wrapf(err, "clearing on view %s", view.name)
-			}
-			if !changed {
-				skipAbove = level + 1
-			} else {
-				skipAbove = maxInt
-			}
+		v, err := view.clearBit(rowID, colID)
+		if err != nil {
+			return changed, errors.Wrapf(err, "clearing on view %s", view.name)
 		}
-		lastViewNameSize = len(view.name)
+		if v {
+			changed = true
+		}
 	}
-
 	return changed, nil
 }
 
